@@ -11,6 +11,9 @@ import (
 
 	api "github.com/polydawn/go-timeless-api"
 	"github.com/polydawn/go-timeless-api/rio"
+	"github.com/polydawn/rio/fs"
+	"github.com/polydawn/rio/fs/osfs"
+	"github.com/polydawn/rio/stitch"
 	tartrans "github.com/polydawn/rio/transmat/tar"
 	ziptrans "github.com/polydawn/rio/transmat/zip"
 )
@@ -110,6 +113,44 @@ func packenvExec(c *Ctx, op string) {
 		for i := range fsets {
 			if len(dirs[i]) > 0 {
 				check(i, res[i], "packed concurrently with other filesets")
+			}
+		}
+	}
+	// stitch.PackMulti: all filesets at once, each part with its own filter and its own warehouse; every part must get
+	// the id a solo pack with that part's filter gives
+	{
+		pfs := []api.FilesetPackFilter{api.FilesetPackFilter_Lossless, api.FilesetPackFilter_Flatten, api.MustParseFilesetPackFilter("uid=7,gid=8,mtime=@99,sticky=keep,setid=keep,dev=keep")}
+		var parts []stitch.PackSpec
+		solo := map[string]string{}
+		for i := range fsets {
+			if len(dirs[i]) == 0 {
+				continue
+			}
+			pfi := pfs[i%len(pfs)]
+			whi := filepath.Join(base, fmt.Sprintf("whm%d", i))
+			os.MkdirAll(whi, 0755)
+			p := fmt.Sprintf("/a%d", i)
+			parts = append(parts, stitch.PackSpec{Path: fs.MustAbsolutePath(p), PackType: "tar", Filter: pfi, Warehouse: api.WarehouseLocation("ca+file://" + whi)})
+			id, err, pan := safeCall(func() (api.WareID, error) {
+				return tartrans.Pack(ctx, "tar", dirs[i][0], pfi, "", rio.Monitor{})
+			})
+			solo[p] = resTok(id, err, pan)
+		}
+		if len(parts) > 1 {
+			var got map[api.AbsPath]api.WareID
+			_, _, pan := safeCall(func() (api.WareID, error) {
+				var e error
+				got, e = stitch.PackMulti(ctx, tartrans.Pack, osfs.New(fs.MustAbsolutePath(base)), parts)
+				return api.WareID{}, e
+			})
+			c.H("variant:packmulti")
+			if pan != "" {
+				c.PropFail("pack-env", "PackMulti panicked: "+pan, op)
+			}
+			for p, want := range solo {
+				if g := "ok " + got[api.AbsPath(p)].Hash; g != want {
+					c.PropFail("pack-env", fmt.Sprintf("PackMulti reports %s for %s; packed alone with the same filter it is %s", g, p, want), op)
+				}
 			}
 		}
 	}
